@@ -90,7 +90,12 @@ class _LineQubit:
         return CQ(i)
 
 
-class FakeCirq:
+class _FakeMeta(type):
+    def __getattr__(cls, name):
+        raise Unsupported(f"{cls.__name__}.{name}: not part of the recorded library model (the obligation becomes undecided; the bounded native run still uses the real library)")
+
+
+class FakeCirq(metaclass=_FakeMeta):
     """records what Tangelo asks cirq for"""
     H = CGateT("H")
     X = CGateT("X")
@@ -100,7 +105,15 @@ class FakeCirq:
     T = CGateT("T")
     I = CGateT("I")
     CNOT = CGateT("CNOT", nq=2)
+    CX = CGateT("CNOT", nq=2)
+    CZ = CGateT("CZ2", nq=2)
     SWAP = CGateT("SWAP", nq=2)
+    CSWAP = CGateT("CSWAP3", nq=3)
+    FREDKIN = CGateT("CSWAP3", nq=3)
+    CCX = CGateT("CCX3", nq=3)
+    TOFFOLI = CGateT("CCX3", nq=3)
+    CCNOT = CGateT("CCX3", nq=3)
+    CCZ = CGateT("CCZ3", nq=3)
     LineQubit = _LineQubit()
     Circuit = CCircuit
 
@@ -155,6 +168,17 @@ def cirq_gate_matrix(g: CGateT, A):
     if n == "CNOT":
         o, z = A.one, A.zero
         return [[o, z, z, z], [z, o, z, z], [z, z, z, o], [z, z, o, z]]
+    if n in ("CZ2", "CSWAP3", "CCX3", "CCZ3"):
+        # cirq's named multi-qubit gates: first qubit(s) are the control(s)
+        base, nc = {"CZ2": ("Z", 1), "CSWAP3": ("SWAP", 1), "CCX3": ("X", 2), "CCZ3": ("Z", 2)}[n]
+        B = qsem.base_matrix(base, None, A)
+        d = len(B) * 2 ** nc
+        M = [[A.one if i == j else A.zero for j in range(d)] for i in range(d)]
+        off = d - len(B)
+        for i in range(len(B)):
+            for j in range(len(B)):
+                M[off + i][off + j] = B[i][j]
+        return M
     if n in ("rx", "ry", "rz"):
         return qsem.base_matrix(n.upper(), p[0], A)
     if n == "ZPow":
@@ -283,7 +307,7 @@ class SMatrix(list):
     pass
 
 
-class FakeSympyGates:
+class FakeSympyGates(metaclass=_FakeMeta):
     @staticmethod
     def HadamardGate(t):
         return SGate("H", [t])
@@ -327,7 +351,7 @@ class FakeSympyGates:
         return SGate(gate.name, gate.qubits, matrix=gate.matrix, controls=tuple(gate.controls) + cs)
 
 
-class FakeSympy:
+class FakeSympy(metaclass=_FakeMeta):
     """the handful of sympy names used by translate_sympy.py"""
     I = qsem.I_POLY
 
